@@ -125,6 +125,16 @@ UNITS['c17'] = {
     ],
 }
 
+UNITS['c06'] = {
+    'template': 'contracts/c06.vrs',
+    'mutants': [
+        ('examples_not_collected', 'collect_insert(&mut __acc15_1, __item15);', '', ['C06.']),
+        ('example_keyed_by_url', '(clone_string(name), ReferenceOr::Item(example))', '(clone_string(url), ReferenceOr::Item(example))', ['C06.']),
+        ('schema_examples_preferred', 'match content .examples .as_ref() { Some(__v8f) => Some(__v8f), None => match content.schema.as_ref() { Some(s) => s.examples.as_ref(), None => None } }',
+         'match (match content.schema.as_ref() { Some(s) => s.examples.as_ref(), None => None }) { Some(__v8f) => Some(__v8f), None => content.examples.as_ref() }', ['C06.examples']),
+    ],
+}
+
 UNITS['c10'] = {
     'template': 'contracts/c10.vrs',
     'mutants': [
@@ -410,6 +420,27 @@ PROPS = {
         'assumptions': ['LOGOS contract (logos crate behaves as documented)', 'generational_token_list keeps insertion order'],
         'not_decided': ['leaves of the tree are exactly the non-trivia tokens of the parsed prefix', 'a node\'s span is the hull of its leaves', 'spans attached to compiler diagnostics and definitions'],
     },
+    'C06': {
+        'units': ['c06'],
+        'level': 'other',
+        'obligation_prefixes': ['C06.'],
+        'scans': [
+            {'name': 'A6.no_hash_collections_on_the_output_path', 'kind': 'grep_count', 'token': r'\bHash(Map|Set)\b',
+             'files': ['oal-openapi/src/lib.rs', 'oal-compiler/src/spec.rs', 'oal-compiler/src/annotation.rs'], 'count': 0,
+             'why': 'after fix aeb24a7 no hash-ordered collection is left in the evaluated-program types, the annotation getters and the emitter; the evaluator keeps HashMap for its scopes, which are lookup-only (proved: unit c01, lookup_binding / eval_binding)'},
+        ],
+        'technique': 'Verus contract on the real Builder::content_examples over the real spec::{Content, Schema} field types: the emitted example map is, entry by entry and in order, a function of the evaluated content; '
+                     'a token scan guards the absence of hash-ordered collections on the rest of the output path',
+        'level_text': 'Deductive proof (Verus/Z3) for every content: the real content_examples emits the examples of the content (else of its schema) in the order in which the map hands them out, and that order is a function of the map VALUE '
+                      '(the entry sequence of an insertion-ordered map = the order of the source annotation). With std::collections::HashMap in the field type (the pinned tree) the same obligation fails — the iteration order of a hash map is no function of its content — '
+                      'which is the genuine defect repaired by fix commit (see known_findings.json). Byte-identical output of the whole pipeline (serde_yaml, file order of modules, every other emitter function) is not decided: level other.',
+        'level_note': 'ASSUMED: indexmap::IndexMap iterates in insertion order and `collect()` into it inserts in iteration order (shim), keys of an IndexMap are distinct, String::clone yields an equal string. '
+                      'Rules R8f (Option::or_else), R15 (iter().map().collect() -> loop), R8c. Token scan A6: no HashMap/HashSet in oal-openapi/src/lib.rs, spec.rs, annotation.rs.',
+        'design_ref': 'DESIGN.md section 12.13',
+        'explanation': 'The plan called C06 a data-flow discipline. For the one place where hash order reached the output the discipline IS a function contract: "the result is a function of the argument\'s ordered view", which has no proof when the argument is a HashMap.',
+        'assumptions': ['IndexMap shim (insertion order)', 'serde_yaml serialises an IndexMap in its iteration order', 'A6 token scan'],
+        'not_decided': ['determinism of the other emitter functions beyond their existing `==`-contracts (C03, C14)', 'serde_yaml output', 'module iteration order in ModuleSet (HashMap; used by the language server only)', 'two runs on different machines / locales'],
+    },
     'C07': {
         'units': ['c07'],
         'level': 'other',
@@ -539,7 +570,6 @@ HOOK_COMMITS = []
 NOT_APPLICABLE = {
     'C02': 'needs an independent reference semantics of the whole language and a relational proof over evaluator + emitter (25 mutually recursive eval_* over an external arena, Rc, serde_yaml); no function contract within reach decides "nothing dropped or re-attached" for programs',
     'C05': 'hyperproperty relating the outputs of two programs (before/after a rewrite); a contract speaks about one call, and a product encoding would need the whole pipeline inside the verifier',
-    'C06': 'byte-identical output is functional determinism of the whole path source -> YAML including serde_yaml and HashMap iteration order; a data-flow discipline, not a contract on a function',
     'C12': 'every parser production is a closure combinator over &mut Context (rejected by Verus: closures capturing a mutable reference); Kani on parse_program with three symbolic tokens did not finish in 30 min; the linear bound needs ghost accounting through that same code',
     'C18': 'rename correctness is alpha-equivalence of two whole programs (C05 shape) and depends on the resolver invariant (C08)',
 }
